@@ -242,7 +242,7 @@ class Report:
 
     # ------------------------------------------------------------------
     def finish(self, prog, hashes):
-        ev_dir = os.path.join(VERIF, "evidence")
+        ev_dir = os.environ.get("VERIF_EVIDENCE_DIR", os.path.join(VERIF, "evidence"))
         os.makedirs(ev_dir, exist_ok=True)
         rules = {}
         for o in self.obligations:
@@ -300,7 +300,8 @@ class Report:
         for k in self.known:
             print(f"KNOWN-FINDING: property={self.pid} {k['what']} [{k['key']}]")
         if self.violations:
-            rep_dir = os.path.join(VERIF, "evidence", "replay")
+            rep_dir = os.path.join(os.environ.get("VERIF_EVIDENCE_DIR",
+                                                  os.path.join(VERIF, "evidence")), "replay")
             os.makedirs(rep_dir, exist_ok=True)
             for i, v in enumerate(self.violations):
                 path = os.path.join(rep_dir, f"{self.pid}-{i}.json")
